@@ -242,143 +242,212 @@ def kkt(prog: Program, rep, sc) -> None:
     ok = isinstance(v, ast.Call) and dotted(v.func) == "Scaling" and len(v.args) == 2 and U(v.args[0]) == f"-{kk}[:{n_txt}]" and U(v.args[1]) == f"{kk}[{n_txt}:]"
     rep.check(ok, "kkt-weights", m.qualname, short(r[0]), f"var_weights = -D[:n], cons_weights = D[n:] for D = scale_symmetric([[H, J'],[J, 0]]) (found {U(v)[:120]})", m.loc(r[0]))
 
+    scale_symmetric_rule(prog, rep)
+
+
+def scale_symmetric_rule(prog: Program, rep) -> None:
+    """scale_symmetric, by role.  One outer sweep loop; in a sweep: S = column sums of the working magnitudes (accumulated by an
+    entry loop `S[col[k]] += data[k]` or np.add.at(S, col, data)), exactly-zero sums replaced by one, W = 1 - frexp(sqrt(S))[1],
+    the function hands out its accumulated weights D only when W is all zero (break + return after the loop, or return inside it),
+    otherwise every magnitude k is rescaled by ldexp(., W[row_k] + W[col_k]) and D += W; exhausting the sweeps raises.  Locals are
+    followed through plain copies, so temporaries and extracted helpers (expanded by the inliner) do not matter."""
     s = prog.func("pygradflow.scale.scale_symmetric")
     fs = facts_for(s)
     outer = [q for q in fs.order if isinstance(q.stmt, ast.For) and not q.loops]
     if len(outer) != 1:
-        raise AnalysisError("scale_symmetric: expected one outer iteration loop")
+        raise AnalysisError("scale_symmetric: expected one outer sweep loop")
     lp = outer[0].stmt
-    # exit guard
-    rets = returns_of(s)
-    ok_guard = bool(lp.orelse) and always_leaves(lp.orelse) and isinstance(lp.orelse[-1], ast.Raise)
-    breaks = [q for q in fs.order if isinstance(q.stmt, ast.Break) and q.loops and q.loops[-1] is lp]
-    ok_break = False
-    if len(breaks) == 1:
-        def _canon(t):
-            try:
-                return U(unitem(ast.parse(t, mode="eval").body))
-            except SyntaxError:
-                return t
-        for f in breaks[0].facts:
-            t = _canon(f[1])
-            if "np.frexp(np.sqrt(" not in t:
-                continue
-            try:
-                e = ast.parse(t, mode="eval").body
-            except SyntaxError:
-                continue
-            # (W == 0).all() is true  /  W.any() is false  /  np.all(W == 0)  /  not np.any(W)
-            if f[0] == "truthy" and isinstance(e, ast.Call) and ((isinstance(e.func, ast.Attribute) and e.func.attr == "all" and not e.args and (w_ := e.func.value) is not None) or
-                                                                (np_call(e, "all") and len(e.args) == 1 and (w_ := e.args[0]) is not None)):
-                at = atoms_of(w_, True)
-                ok_break = ok_break or (len(at) == 1 and at[0][0] == "==" and at[0][2] in ("0", "0.0") and is_frexp_weight(ast.parse(at[0][1], mode="eval").body) is not None)
-            if f[0] == "falsy" and isinstance(e, ast.Call) and ((isinstance(e.func, ast.Attribute) and e.func.attr == "any" and not e.args and (w_ := e.func.value) is not None) or
-                                                               (np_call(e, "any") and len(e.args) == 1 and (w_ := e.args[0]) is not None)):
-                ok_break = ok_break or is_frexp_weight(w_) is not None
-    rep.check(ok_guard and ok_break and len(rets) == 1 and not fs.at(rets[0]).loops, "equilibration-exit-guard", s.qualname, "for ... else: raise",
-              "scale_symmetric returns only after the break taken when (Rsca == 0).all(); exhausting the iterations raises", s.loc(lp))
-    # column sums, zero guard, sqrt, Rsca
-    rsca = None
+    inloop = [q for q in fs.order if lp in q.loops]
+
+    # ---- alias classes of locals (plain copies a = b inside or before the loop) -----------------------------------------
+    parent: Dict[str, str] = {}
+
+    def find(a):
+        while parent.get(a, a) != a:
+            a = parent[a]
+        return a
     for q in fs.order:
         st = q.stmt
-        if isinstance(st, ast.Assign) and len(st.targets) == 1 and isinstance(st.targets[0], ast.Name) and lp in q.loops:
-            val = st.value
-            if isinstance(val, ast.BinOp) and isinstance(val.right, ast.Name):
-                # `(_, e) = np.frexp(R)` / `e = np.frexp(R)[1]` followed by `Rsca = 1 - e`
-                for d in fs.order:
-                    if d.index < q.index and d.loops == q.loops and isinstance(d.stmt, ast.Assign) and len(d.stmt.targets) == 1:
-                        t = d.stmt.targets[0]
-                        if isinstance(t, ast.Tuple) and [U(e_) for e_ in t.elts].count(val.right.id) == 1 and isinstance(d.stmt.value, ast.Call):
-                            k = [U(e_) for e_ in t.elts].index(val.right.id)
-                            val = ast.BinOp(left=val.left, op=val.op, right=ast.Subscript(value=d.stmt.value, slice=ast.Constant(value=k), ctx=ast.Load()))
-                            break
-                        if isinstance(t, ast.Name) and t.id == val.right.id:
-                            val = ast.BinOp(left=val.left, op=val.op, right=d.stmt.value)
-                            break
+        if isinstance(st, ast.Assign) and len(st.targets) == 1 and isinstance(st.targets[0], ast.Name) and isinstance(st.value, ast.Name):
+            parent[find(st.targets[0].id)] = find(st.value.id)
+
+    def same(a, b):
+        return find(a) == find(b)
+
+    def base_name(e):
+        return e.id if isinstance(e, ast.Name) else None
+
+    # ---- the working arrays ---------------------------------------------------------------------------------------------
+    coo = rows = cols = data = None
+    for q in fs.order:
+        st = q.stmt
+        if q.loops or not (isinstance(st, ast.Assign) and len(st.targets) == 1):
+            continue
+        tg = st.targets[0]
+        vals = list(zip(tg.elts, st.value.elts)) if isinstance(tg, ast.Tuple) and isinstance(st.value, ast.Tuple) and len(tg.elts) == len(st.value.elts) else [(tg, st.value)]
+        for t, v in vals:
+            if not isinstance(t, ast.Name):
+                continue
+            rv = U(fs.resolved(st, v))
+            if rv.endswith(".tocoo().row"):
+                rows = t.id
+            elif rv.endswith(".tocoo().col"):
+                cols = t.id
+            elif rv.startswith("np.abs(") and rv.endswith(".tocoo().data)"):
+                data = t.id
+    if not (rows and cols and data):
+        raise AnalysisError("scale_symmetric: row / column / |data| arrays of the COO form not identified")
+
+    # ---- W = 1 - frexp(sqrt(S))[1] -------------------------------------------------------------------------------------
+    W = Wq = Sname = None
+    for q in inloop:
+        st = q.stmt
+        if isinstance(st, ast.Assign) and len(st.targets) == 1 and isinstance(st.targets[0], ast.Name):
+            val = unitem(fs.resolved(st, st.value))
             x = is_frexp_weight(val)
             if x is not None:
-                rsca = (st.targets[0].id, x, q)
-    if rsca is None:
-        raise AnalysisError("scale_symmetric: no `Rsca = 1 - frexp(..)[1]` found")
-    rname, rarg, rq = rsca
-    # plain aliases of the column-sum array inside the loop (`R = sums` after an inlined helper)
-    ralias = {rarg}
-    for _ in range(4):
-        for q in fs.order:
-            if isinstance(q.stmt, ast.Assign) and len(q.stmt.targets) == 1 and U(q.stmt.targets[0]) in ralias and isinstance(q.stmt.value, ast.Name) and lp in q.loops:
-                ralias.add(q.stmt.value.id)
-    # R accumulation
-    accs = [q for q in fs.order if isinstance(q.stmt, ast.AugAssign) and isinstance(q.stmt.target, ast.Subscript) and U(q.stmt.target.value) in ralias and lp in q.loops]
-    ok_acc = len(accs) == 1 and isinstance(accs[0].stmt.op, ast.Add)
-    col_idx = data_name = None
-    if ok_acc:
-        a = accs[0].stmt
-        col_idx = U(fs.resolved(a, a.target.slice))
-        data_name = U(a.value)
-    rep.check(ok_acc and col_idx is not None and ".col[" in col_idx, "equilibration-column-sums", s.qualname, short(accs[0].stmt) if accs else "", "R[col] accumulates the entries of column col", s.loc())
-    sq = [q for q in fs.order if isinstance(q.stmt, ast.Assign) and U(q.stmt.targets[0]) in ralias and np_call(q.stmt.value, "sqrt") and lp in q.loops]
-    rep.check(len(sq) == 1 and sq[0].index < rq.index and sq[0].index > (accs[0].index if accs else 0), "equilibration-column-sums", s.qualname, "R = np.sqrt(R)",
-              "Rsca is computed from the square root of the column sums", s.loc())
-    # zero guard
-    guards = [q for q in fs.order if isinstance(q.stmt, ast.Assign) and isinstance(q.stmt.targets[0], ast.Subscript) and U(q.stmt.targets[0].value) in ralias and lp in q.loops]
-    for gq in guards:
-        at = atoms_of(gq.stmt.targets[0].slice, True)
-        exact = len(at) == 1 and ((at[0][0] == "==" and at[0][2] in ("0", "0.0") and at[0][1] in ralias) or (at[0][0] == "<=" and at[0][2] in ("0", "0.0") and at[0][1] in ralias))
-        rep.check(exact and const_value(gq.stmt.value) == 1, "equilibration-zero-columns", s.qualname, short(gq.stmt),
-                  "only exactly-zero columns are treated as empty (a positive threshold would leave small non-zero columns unscaled)", s.loc(gq.stmt))
-    # dtype of R
-    rdefs = [q for q in fs.order if isinstance(q.stmt, ast.Assign) and U(q.stmt.targets[0]) in ralias and lp in q.loops and not np_call(q.stmt.value, "sqrt")
-             and not isinstance(q.stmt.value, ast.Name)]
-    dt = dtype_of(s, fs, rdefs[0].stmt, rdefs[0].stmt.value) if rdefs else "unknown"
-    rep.check(dt == "float", "magnitudes-are-float", s.qualname, short(rdefs[0].stmt) if rdefs else rarg,
-              f"the column-sum accumulator is certainly float-kinded (found {dt})", s.loc(rdefs[0].stmt) if rdefs else s.loc())
-    # entry rescaling and D accumulation agree
-    upd = [q for q in fs.order if isinstance(q.stmt, ast.Assign) and np_call(q.stmt.value, "ldexp") and lp in q.loops]
+                W, Wq = st.targets[0].id, q
+                arg = ast.parse(x, mode="eval").body
+                ok_sqrt = np_call(arg, "sqrt") and len(arg.args) == 1
+                rep.check(ok_sqrt, "equilibration-column-sums", s.qualname, short(st), "the sweep weights come from the square root of the column sums", s.loc(st))
+    if W is None:
+        raise AnalysisError("scale_symmetric: no `W = 1 - frexp(..)[1]` found")
+    # S: the array that is accumulated into inside the sweep and feeds the sqrt
+    acc = []
+    for q in inloop:
+        st = q.stmt
+        if isinstance(st, ast.AugAssign) and isinstance(st.op, ast.Add) and isinstance(st.target, ast.Subscript) and base_name(st.target.value) and q.index < Wq.index:
+            acc.append(("loop", q, base_name(st.target.value)))
+        if isinstance(st, ast.Expr) and isinstance(st.value, ast.Call) and dotted(st.value.func) in ("np.add.at", "numpy.add.at") and len(st.value.args) == 3 and base_name(st.value.args[0]):
+            acc.append(("add.at", q, base_name(st.value.args[0])))
+    ok_acc = False
+    if len(acc) == 1:
+        kind, q, Sname = acc[0]
+        st = q.stmt
+        if kind == "loop":
+            inner = q.loops[-1]
+            k = U(inner.target) if isinstance(inner, ast.For) and isinstance(inner.target, ast.Name) else None
+            dom = U(fs.resolved(inner, inner.iter)) if isinstance(inner, ast.For) else ""
+            idx = st.target.slice
+            ok_acc = k is not None and isinstance(idx, ast.Subscript) and base_name(idx.value) and same(idx.value.id, cols) and U(idx.slice) == k \
+                and isinstance(st.value, ast.Subscript) and base_name(st.value.value) and same(st.value.value.id, data) and U(st.value.slice) == k \
+                and dom.startswith("range(") and ("len(" in dom or ".nnz" in dom or ".size" in dom or "shape" in dom)
+        else:
+            a0, a1, a2 = st.value.args
+            ok_acc = base_name(a1) is not None and same(a1.id, cols) and base_name(a2) is not None and same(a2.id, data)
+    rep.check(ok_acc, "equilibration-column-sums", s.qualname, short(acc[0][1].stmt) if acc else "column sums", "S[col] accumulates the magnitudes of column col over all stored entries", s.loc())
+    if Sname is None:
+        raise AnalysisError("scale_symmetric: the column-sum accumulation was not identified")
+    # initial value of S in the sweep and its dtype
+    inits = [q for q in inloop if isinstance(q.stmt, ast.Assign) and len(q.stmt.targets) == 1 and isinstance(q.stmt.targets[0], ast.Name) and same(q.stmt.targets[0].id, Sname)
+             and not isinstance(q.stmt.value, ast.Name) and not np_call(q.stmt.value, "sqrt") and q.index < acc[0][1].index]
+    dt = dtype_of(s, fs, inits[0].stmt, inits[0].stmt.value) if inits else "unknown"
+    zero_init = bool(inits) and np_call(inits[0].stmt.value, "zeros", "zeros_like")
+    rep.check(dt == "float" and zero_init, "magnitudes-are-float", s.qualname, short(inits[0].stmt) if inits else Sname,
+              f"the column-sum accumulator starts from zeros in every sweep and is certainly float-kinded (found {dt})", s.loc(inits[0].stmt) if inits else s.loc())
+    # zero guard: only exactly-zero sums are replaced (by one)
+    for q in inloop:
+        st = q.stmt
+        if isinstance(st, ast.Assign) and isinstance(st.targets[0], ast.Subscript) and base_name(st.targets[0].value) and same(st.targets[0].value.id, Sname) \
+                and isinstance(st.targets[0].slice, ast.Compare):
+            at = atoms_of(st.targets[0].slice, True)
+            exact = len(at) == 1 and at[0][0] in ("==", "<=") and at[0][2] in ("0", "0.0") and same(at[0][1], Sname)
+            rep.check(exact and const_value(st.value) == 1, "equilibration-zero-columns", s.qualname, short(st),
+                      "only exactly-zero columns are treated as empty (a positive threshold would leave small non-zero columns unscaled)", s.loc(st))
+
+    # ---- exit discipline ------------------------------------------------------------------------------------------------
+    def zero_fact(facts) -> bool:
+        for f in facts:
+            try:
+                e = unitem(ast.parse(f[1], mode="eval").body)
+            except SyntaxError:
+                continue
+            w_ = None
+            if isinstance(e, ast.Call) and isinstance(e.func, ast.Attribute) and e.func.attr in ("all", "any") and not e.args:
+                w_, red = e.func.value, e.func.attr
+            elif np_call(e, "all", "any") and len(e.args) == 1:
+                w_, red = e.args[0], e.func.attr
+            if w_ is None:
+                continue
+            if f[0] == "truthy" and red == "all":
+                at = atoms_of(w_, True)
+                if len(at) == 1 and at[0][0] == "==" and at[0][2] in ("0", "0.0") and is_frexp_weight(unitem(ast.parse(at[0][1], mode="eval").body)) is not None:
+                    return True
+            if f[0] == "falsy" and red == "any":
+                inner = w_
+                at = atoms_of(inner, True)
+                if is_frexp_weight(inner) is not None or (len(at) == 1 and at[0][0] == "!=" and at[0][2] in ("0", "0.0")):
+                    return True
+        return False
+    rets = returns_of(s)
+    breaks = [q for q in inloop if isinstance(q.stmt, ast.Break) and q.loops[-1] is lp]
+    ok_exit = bool(rets)
+    for r in rets:
+        sr = fs.at(r)
+        if lp in sr.loops:
+            ok_exit = ok_exit and zero_fact(sr.facts)
+        else:
+            ok_exit = ok_exit and bool(breaks) and all(zero_fact(b.facts) for b in breaks) and bool(lp.orelse) and always_leaves(lp.orelse) and isinstance(lp.orelse[-1], ast.Raise)
+    if not any(lp not in fs.at(r).loops for r in rets):
+        # nothing is returned after the loop: falling out of it (sweeps exhausted) must raise
+        after = [q for q in fs.order if q.index > outer[0].index and not q.loops and lp not in q.loops]
+        tail_raises = (bool(lp.orelse) and always_leaves(lp.orelse) and isinstance(lp.orelse[-1], ast.Raise)) or any(isinstance(q.stmt, ast.Raise) for q in after)
+        ok_exit = ok_exit and tail_raises and not breaks
+    rep.check(ok_exit, "equilibration-exit-guard", s.qualname, "return D", "scale_symmetric hands out its weights only in a sweep whose weights W are all zero; exhausting the sweeps raises", s.loc(lp))
+
+    # ---- rescaling and accumulation ------------------------------------------------------------------------------------------
+    upd = [q for q in inloop if isinstance(q.stmt, ast.Assign) and np_call(q.stmt.value, "ldexp")]
     ok_upd = False
-
-    def deref(e, q):
-        """follow in-loop temporaries (`shift = Rsca[r] + Rsca[c]`) back to their single definition."""
-        seen = 0
-        while isinstance(e, ast.Name) and e.id != rname and seen < 4:
-            defs = [d for d in fs.order if isinstance(d.stmt, ast.Assign) and len(d.stmt.targets) == 1 and U(d.stmt.targets[0]) == e.id and d.loops == q.loops and d.index < q.index]
-            if len(defs) != 1:
-                break
-            e = defs[0].stmt.value
-            seen += 1
-        return e
-
     if len(upd) == 1:
-        u_ = upd[0].stmt
-        tg = u_.targets[0]
-        whole = isinstance(tg, ast.Name) or (isinstance(tg, ast.Subscript) and isinstance(tg.slice, ast.Slice) and tg.slice.lower is None and tg.slice.upper is None and tg.slice.step is None)
-        base = U(tg) if isinstance(tg, ast.Name) else U(tg.value)
-        e = deref(u_.value.args[1], upd[0])
-        same_target = base == data_name.split("[")[0] if data_name else False
-        if isinstance(e, ast.BinOp) and isinstance(e.op, ast.Add) and isinstance(e.left, ast.Subscript) and isinstance(e.right, ast.Subscript):
-            kname = U(tg.slice) if isinstance(tg, ast.Subscript) and isinstance(tg.slice, ast.Name) else None
-            env_ = {a: b for a, b in fs.at(u_).env.items() if a != kname}
-            li, ri = _resolve(deref(e.left.slice, upd[0]), env_), _resolve(deref(e.right.slice, upd[0]), env_)
-            if whole:
-                kinds = {li.attr if isinstance(li, ast.Attribute) else None, ri.attr if isinstance(ri, ast.Attribute) else None}
-                first_ok = U(u_.value.args[0]) == base
+        q = upd[0]
+        st = q.stmt
+        tg = st.targets[0]
+
+        def whole(t):
+            return isinstance(t, ast.Name) or (isinstance(t, ast.Subscript) and ((isinstance(t.slice, ast.Slice) and t.slice.lower is None and t.slice.upper is None and t.slice.step is None)
+                                                                                  or (isinstance(t.slice, ast.Constant) and t.slice.value is Ellipsis)))
+        tb = tg.id if isinstance(tg, ast.Name) else base_name(tg.value) if isinstance(tg, ast.Subscript) else None
+        e = st.value.args[1]
+        for _ in range(3):
+            if isinstance(e, ast.Name) and not same(e.id, W):
+                defs = [d for d in inloop if isinstance(d.stmt, ast.Assign) and len(d.stmt.targets) == 1 and U(d.stmt.targets[0]) == e.id and d.index < q.index]
+                if len(defs) == 1:
+                    e = defs[0].stmt.value
+                    continue
+            break
+        if tb is not None and same(tb, data) and isinstance(e, ast.BinOp) and isinstance(e.op, ast.Add) and isinstance(e.left, ast.Subscript) and isinstance(e.right, ast.Subscript) \
+                and base_name(e.left.value) and base_name(e.right.value) and same(e.left.value.id, W) and same(e.right.value.id, W):
+            if whole(tg):
+                first = st.value.args[0]
+                idxs = {find(e.left.slice.id) if isinstance(e.left.slice, ast.Name) else None, find(e.right.slice.id) if isinstance(e.right.slice, ast.Name) else None}
+                ok_upd = base_name(first) is not None and same(first.id, data) and idxs == {find(rows), find(cols)}
             else:
-                k_ = U(tg.slice)
-                kinds = {_rc(li) if U(getattr(li, "slice", None) or ast.Name(id="?")) == k_ else None, _rc(ri) if U(getattr(ri, "slice", None) or ast.Name(id="?")) == k_ else None}
-                first_ok = U(u_.value.args[0]) == f"{base}[{k_}]"
-            ok_upd = first_ok and kinds == {"row", "col"} and U(e.left.value) == rname and U(e.right.value) == rname and same_target
-    rep.check(ok_upd, "equilibration-rescale", s.qualname, short(upd[0].stmt) if upd else "", "entry k is rescaled by ldexp(entry, Rsca[row_k] + Rsca[col_k])", s.loc())
-    dacc = [q for q in fs.order if isinstance(q.stmt, ast.AugAssign) and isinstance(q.stmt.target, ast.Name) and U(q.stmt.value) == rname and isinstance(q.stmt.op, ast.Add) and lp in q.loops]
-    ok_d = len(dacc) == 1 and U(rets[0].value) == U(dacc[0].stmt.target) and (not upd or dacc[0].facts == upd[0].facts or True)
+                k = U(tg.slice)
+                first = st.value.args[0]
+
+                def role(ix):
+                    while isinstance(ix, ast.Name) and not (same(ix.id, rows) or same(ix.id, cols)):
+                        defs = [d for d in inloop if isinstance(d.stmt, ast.Assign) and len(d.stmt.targets) == 1 and U(d.stmt.targets[0]) == ix.id and d.index < q.index]
+                        if len(defs) != 1:
+                            return None
+                        ix = defs[0].stmt.value
+                    if isinstance(ix, ast.Subscript) and base_name(ix.value) and U(ix.slice) == k:
+                        return "row" if same(ix.value.id, rows) else ("col" if same(ix.value.id, cols) else None)
+                    return None
+                ok_upd = isinstance(first, ast.Subscript) and base_name(first.value) and same(first.value.id, data) and U(first.slice) == k \
+                    and {role(e.left.slice), role(e.right.slice)} == {"row", "col"}
+    rep.check(ok_upd, "equilibration-rescale", s.qualname, short(upd[0].stmt) if upd else "", "magnitude k is rescaled by ldexp(., W[row_k] + W[col_k])", s.loc())
+    dacc = [q for q in inloop if isinstance(q.stmt, ast.AugAssign) and isinstance(q.stmt.target, ast.Name) and isinstance(q.stmt.op, ast.Add) and base_name(q.stmt.value) and same(q.stmt.value.id, W)]
+    ret_names = {U(r.value) for r in rets}
+    ok_d = len(dacc) == 1 and len(ret_names) == 1 and same(list(ret_names)[0], U(dacc[0].stmt.target))
     same_iter = bool(dacc) and bool(upd) and [f for f in dacc[0].facts if f not in outer[0].facts] == [f for f in upd[0].facts if f not in outer[0].facts]
-    rep.check(ok_d and same_iter, "equilibration-accumulator", s.qualname, short(dacc[0].stmt) if dacc else "D += Rsca",
-              "the returned weights accumulate exactly the Rsca applied to the entries, in the same iteration", s.loc())
-    dinit = [q for q in fs.order if isinstance(q.stmt, ast.Assign) and dacc and U(q.stmt.targets[0]) == U(dacc[0].stmt.target) and not q.loops]
+    rep.check(ok_d and same_iter, "equilibration-accumulator", s.qualname, short(dacc[0].stmt) if dacc else "D += W",
+              "the returned weights accumulate exactly the W applied to the magnitudes, in the same sweep", s.loc())
+    dinit = [q for q in fs.order if isinstance(q.stmt, ast.Assign) and dacc and not q.loops and len(q.stmt.targets) == 1 and isinstance(q.stmt.targets[0], ast.Name)
+             and same(q.stmt.targets[0].id, U(dacc[0].stmt.target)) and not isinstance(q.stmt.value, ast.Name)]
     dk = dtype_of(s, fs, dinit[0].stmt, dinit[0].stmt.value) if dinit else "unknown"
     rep.check(dk == "int", "weights-are-integral", s.qualname, short(dinit[0].stmt) if dinit else "D", f"the accumulated weights are integer exponents (found {dk})", s.loc())
-    adata = [q for q in fs.order if isinstance(q.stmt, ast.Assign) and data_name and U(q.stmt.targets[0]) == data_name.split("[")[0] and not q.loops]
-    ak = dtype_of(s, fs, adata[0].stmt, fs.resolved(adata[0].stmt, adata[0].stmt.value)) if adata else "unknown"
-    rep.note(f"working copy of the entry magnitudes: `{short(adata[0].stmt) if adata else '?'}` (dtype kind {ak}; inherits the KKT matrix dtype, which bmat of float blocks makes float)")
-    rep.pin("scale_symmetric constructs (guard, sums, sqrt, rescale, accumulate)", sum([ok_guard, ok_acc, len(sq) == 1, ok_upd, ok_d]), 5)
+    rep.pin("scale_symmetric constructs (guard, sums, rescale, accumulate)", sum([ok_exit, ok_acc, ok_upd, ok_d]), 4)
 
 
 def scaling_inputs(prog: Program, rep) -> None:
